@@ -61,6 +61,7 @@ PROPS = {
     },
     "C10": {
         "harness_cmd": "c10",
+        "oracle_props": ["C10"],
         "property_files": ["C10.v"],
         "expected_theorems": [
             "C10_pair_swap_probability", "C10_clip_is_min", "C10_pair_outcomes", "C10_swap_moves_only_configuration",
@@ -96,5 +97,39 @@ PROPS = {
         ],
         "trusted_base": ["Model/Classical.v transcription of graph.rs do_spin_flip / do_edge_flip / should_flip / do_time_step / get_energy",
                          "stdlib real-number axioms (ClassicalDedekindReals.sig_forall_dec, sig_not_dec, functional_extensionality_dep, Classical_Prop.classic) via Reals.exp in C19_move_detailed_balance only"],
+    },
+    "C09": {
+        "harness_cmd": ["c09", "steps"],
+        "oracle_props": ["C09", "C07", "C06"],
+        "property_files": ["C09.v"],
+        "expected_theorems": ["C09_skeleton_unchanged", "C09_operator_count_unchanged", "C09_redecomposition_identical",
+                              "C09_broken_cluster_weight_zero", "C09_zero_probability_cluster_never_flips"],
+        "assumptions": [
+            "weight preservation (product of matrix elements) and world-line preservation by the flip are decided by the implementation-side oracle on every case and by the bit-exact correspondence with the model, not yet by a Coq theorem (see DESIGN.md)",
+        ],
+        "trusted_base": ["Model/Cluster.v transcription of flip_each_cluster_rng incl. its exploration order (validated by raw-tape replay: cluster numbering decides which RNG word flips which cluster)"],
+    },
+    "C06": {
+        "harness_cmd": ["steps", "c10"],
+        "oracle_props": ["C06"],
+        "property_files": ["C06.v"],
+        "expected_theorems": ["C06_metropolis_slot_spec", "C06_heatbath_slot_spec", "C06_diagonal_update_keeps_worldline", "C06_refresh_keeps_worldline",
+                              "C06_padding_keeps_worldline", "C06_swap_keeps_worldline", "C06_itime_fold_states", "C06_itime_fold_one_per_slot"],
+        "assumptions": [
+            "world-line preservation by the cluster flip, the directed loop and the RVB update is decided by the independent world-line checker after every call plus the bit-exact model correspondence (cluster, loop), not by a Coq theorem",
+            "containers are never longer than the cutoff (set_cutoff lowering is outside a run)",
+        ],
+        "trusted_base": ["Model/Steps.v, Model/Cluster.v, Model/Loop.v transcriptions validated by whole-call tape replay"],
+    },
+    "C07": {
+        "harness_cmd": "steps",
+        "oracle_props": ["C07"],
+        "property_files": ["C07.v"],
+        "expected_theorems": ["C07_sweep_structural_legality", "C07_inserted_ops_are_legal_terms", "C07_zero_weight_never_inserted_metropolis",
+                              "C07_zero_weight_never_inserted_heatbath", "C07_spin_flips_keep_bond_positions"],
+        "assumptions": [
+            "positivity is proved as 'zero-weight operators are inserted with probability 0'; that cluster / loop / RVB updates keep weights positive is decided by the legality oracle after every call plus the model correspondence",
+        ],
+        "trusted_base": ["Model/Steps.v transcription validated by whole-call tape replay"],
     },
 }
